@@ -71,9 +71,9 @@ TEXTS = {
     "C14": {
         "text": "Lean theorems quantified over every operation trace of the line-building primitives (ordering, disjointness, coverage "
                 "of the pass), consolidation, directive lines, single pass without conditionals; every conditional-directive pass of every file is strictly increasing and in range (passes_sorted_in_range), so the line-builder theorems hold for every pass without side condition (file_lines_wellformed). Exact models replayed against the "
-                "real parser's hook trace and output on every case; direct C14 oracle on the parser output. The three post-parse consolidators (generics, conditional directives inside a line, package directives) are exact models too (Model/Consolidators, fields ck/cl of every fmt record): consolidator_keeps_lines_wellformed (same number of lines, parents and levels untouched, every line still strictly increasing and in range, every token still in some line; an expanded line is the full range first..last), generics_only_retypes_chevrons, package_rule_changes_levels_only; the C14 oracle is also evaluated on the lines after the consolidators. The parser's control flow is an exact, total Lean model (Model/ParserBase, ParserLeaf, ParserFull; pfull stream: final kinds and lines equal the real parser's on every case) whose line builder can only be driven through the primitives (proof-carrying trace): parser_model_final_lines_wellformed (every line non-empty, strictly increasing, within the file) and parser_model_covers_every_token (every token of the file is in some line) hold for every input on which the model answers, with no hypothesis on control flow.",
-        "design_ref": "DESIGN.md section 5 (C14), 12.2",
-        "note": "The parent and end-of-file clauses (well-formed input) are decided by the direct oracle, not by a theorem. The model answers `none` where the real code would panic or its fuel runs out (never observed); three run-time guards of the model (skip only on compiler directives, pass consumed, directives keep their kind) are facts of the unchanged code checked by the correspondence. Trusted: Lean kernel, translator, harness, hook patch, model.",
+                "real parser's hook trace and output on every case; direct C14 oracle on the parser output. The three post-parse consolidators (generics, conditional directives inside a line, package directives) are exact models too (Model/Consolidators, fields ck/cl of every fmt record): consolidator_keeps_lines_wellformed (same number of lines, parents and levels untouched, every line still strictly increasing and in range, every token still in some line; an expanded line is the full range first..last), generics_only_retypes_chevrons, package_rule_changes_levels_only; the C14 oracle is also evaluated on the lines after the consolidators. The parser's control flow is an exact, total Lean model (Model/ParserBase, ParserLeaf, ParserFull; pfull stream: final kinds and lines equal the real parser's on every case) whose line builder can only be driven through the primitives (proof-carrying trace): parser_model_final_lines_wellformed (every line non-empty, strictly increasing, within the file) and parser_model_covers_every_token (every token of the file is in some line) hold for every input on which the model answers, with no hypothesis on control flow. Second sentence (Proofs/ParserParents*, an invariant over the parser model's state monad proved for every parsing function, the 25 mutually recursive ones by induction on fuel): parser_model_parent_contains_token (in the final result a child line's parent line precedes it and contains the parent token: unconditional), parser_model_exactly_one_without_conditionals (every token in exactly one line when the file has no conditional directives), parser_model_at_most_one_eof_line_per_pass, parser_model_single_eof_line (exactly one end-of-file line, holding only the end-of-file token, under the decidable hypothesis eofOk = an end-of-file line in every pass, tallied per case in pfull as info_eofline; false on ill-formed input: counterexample theorem eof_token_can_be_swallowed).",
+        "design_ref": "DESIGN.md section 5 (C14), 12.2, 12.8",
+        "note": "The end-of-file clause holds under the decidable hypothesis eofOk (true on the well-formed families, false on token soup); the direct oracle also checks both clauses on the real parser. The model answers `none` where the real code would panic or its fuel runs out (never observed); three run-time guards of the model (skip only on compiler directives, pass consumed, directives keep their kind) are facts of the unchanged code checked by the correspondence. Trusted: Lean kernel, translator, harness, hook patch, model.",
         "technique": "Lean 4 proof over executable state machine + trace replay correspondence + direct oracle",
     },
     "C07": {
